@@ -177,6 +177,8 @@ func classOfPanic(v any) string {
 		return "slice"
 	case []byte:
 		return "bytes"
+	case int:
+		return "int"
 	}
 	return fmt.Sprintf("other:%T", v)
 }
@@ -191,6 +193,8 @@ func panicValue(class string) any {
 		return panicStruct{N: 7}
 	case "slice": // not comparable, not hashable
 		return []string{"verif", "panic", "slice"}
+	case "int": // the recovery function answers this one with a plain Go error, not a coded one
+		return 42
 	case "bytes": // what the recovery function makes of it is a message that is not valid UTF-8
 		return []byte("bad\xffutf8")
 	case "abort":
@@ -226,6 +230,9 @@ func buildOpts(nodes []optNode, side string, log *layerLog, rl *recoverLog, rec 
 						// what the function returns is the function's business: a coded error whose cause happens to
 						// be a context error must reach the client with the function's code
 						return coded(fmt.Errorf("recovered%w", ctxCause{}))
+					}
+					if _, ok := v.(int); ok {
+						return errors.New("recovered plainly") // uncoded: unknown, with this text
 					}
 					if b, ok := v.([]byte); ok {
 						// the function quotes the value: its message is not valid UTF-8, its code must arrive all the same
